@@ -1,11 +1,12 @@
 #!/bin/bash
-# usage: tools/confirm_seed.sh <agent worktree> <mutN> <seed id>
+# usage: tools/confirm_seed.sh <agent worktree> <mutN> <seed id> [base commit, default HEAD]
 # Confirms a seeded change in a fresh scratch worktree: demo passes on the pristine tree, fails with the patch, the
 # repository test-suite still passes (132) with the patch.  On success stores it as /verif/seeded/<seed id>/.
 set -u
 SRC=$1/$2; ID=$3
 WT=$(mktemp -d /tmp/seedchk.XXXXXX); rmdir "$WT"
-git -C /repo worktree add -q --detach "$WT" HEAD || exit 9
+BASE=${4:-HEAD}
+git -C /repo worktree add -q --detach "$WT" $BASE || exit 9
 cp "$SRC/demo.py" "$WT/demo_seed.py"
 cd "$WT"
 PYTHONPATH="$WT" OMP_NUM_THREADS=2 /venv/bin/python demo_seed.py > "$WT/demo_pristine.log" 2>&1; RC0=$?
@@ -17,9 +18,10 @@ if [ "$RC0" = 0 ] && [ "$RC1" != 0 ] && echo "$PASSED" | grep -q "132 passed"; t
   mkdir -p /verif/seeded/$ID
   cp "$SRC/patch.diff" /verif/seeded/$ID/patch.diff
   cp "$SRC/demo.py" /verif/seeded/$ID/demo.py
-  python3 - "$SRC/meta.json" /verif/seeded/$ID/meta.json "$RC0" "$RC1" "$PASSED" <<'PY'
+  python3 - "$SRC/meta.json" /verif/seeded/$ID/meta.json "$RC0" "$RC1" "$PASSED" "$BASE" <<'PY'
 import json,sys
 m=json.load(open(sys.argv[1]))
+if sys.argv[6] != 'HEAD': m['base_commit']=sys.argv[6]
 m['confirmed_by_main_session']={'demo_exit_pristine':int(sys.argv[3]),'demo_exit_mutated':int(sys.argv[4]),'test_suite_with_patch':sys.argv[5],
   'how':'tools/confirm_seed.sh: fresh scratch worktree of /repo HEAD, demo before/after git apply, full pytest run with the patch applied'}
 json.dump(m,open(sys.argv[2],'w'),indent=1)
